@@ -89,6 +89,23 @@ def gen_cases(rng, tier):
         out.append(("attrname nested", X.arr([X.tup([("k", X.set_([X.tup([(nm, N(1))]), X.tup([(nm, N(2))])]))])])))
     for i in range(400 if tier == "quick" else 4000):
         out.append(("rand", rand_value(rng)))
+    # byte arrays (printable and not, quotes, offsets), negative numbers and escapes as dict keys, nested holes, sets of sets
+    BY = [0, 9, 10, 34, 39, 92, 96, 97, 122, 127, 128, 255, 60, 62]
+    for _ in range(60 if tier == "quick" else 600):
+        bs = [rng.choice(BY) for _ in range(rng.randrange(1, 5))]
+        b = X.bytes_(bs, rng.choice([0, 0, 2, -1, 5]))
+        out.append(("bytes", b))
+        if rng.random() < 0.4:
+            out.append(("bytes nested", X.tup([("b", X.arr([b, X.bytes_([rng.choice(BY)])])), ("s", X.set_([b]))])))
+    keys = [N(-1), N(-2.5), N(0), X.string("a'b"), X.string('a"b'), X.string("a\\b"), X.string("\n"), X.string(""), X.set_([]), X.arr([N(-1)]), X.tup([("k", N(-1))]),
+            X.bytes_([97]), X.set_([N(1), N(2)]), X.true_()]
+    for _ in range(60 if tier == "quick" else 600):
+        ks = rng.sample(keys, rng.randrange(1, 4))
+        out.append(("dict keys", X.dict_([(k, rng.choice([N(-3), X.string("v"), X.dict_([(N(-1), N(1))]), X.arr([N(1), None, N(-2)])])) for k in ks])))
+    out += [("nested holes", X.arr([X.arr([N(1), None, N(3)]), None, X.arr([None, N(2)], 0) if False else X.arr([N(2)], 1)])),
+            ("neg in array", X.arr([N(-1), N(-0.5), X.unop("-", X.set_([N(1)]))])), ("neg in tuple", X.tup([("a", N(-1)), ("b", X.arr([N(-2)]))])),
+            ("sets of sets", X.set_([X.set_([X.set_([])]), X.set_([X.set_([N(1)]), X.set_([])]), X.set_([])])),
+            ("empty kinds", X.tup([("a", X.string("")), ("b", X.arr([])), ("c", X.dict_([])), ("d", X.set_([])), ("e", X.tup([])), ("f", X.arr([X.set_([]), X.tup([])]))]))]
     cases = [{"id": i, "label": l, "ast": e, "src": X.src(e)} for i, (l, e) in enumerate(out)]
     # numbers whose shortest decimal form is under 15 characters: powers of ten around the switch to exponent notation,
     # the extremes of the double range, and subnormals (1 ulp apart) - alone and inside a container
@@ -203,7 +220,7 @@ def main(tier, seed, replay=None):
                 dist += 1
     step = max(1, len(cases) // 8)
     run.cov.update({"evaluations": len(cases) + len(second), "distinct_nontrivial": dist,
-                    "rule": "values from the shared pool (every representation), every control character / quote / backslash / non-BMP rune alone, in context and inside attribute names, offset and sparse sequences, multi-valued dicts, @neg wrappers, 38 attribute names that look like syntax (`a, b`, `|`, `(`, `:`, keywords, ...) in tuples and as relation headings, numbers around the switch to exponent notation, at the extremes of the double range and subnormals, plus random nested values; each is printed (fu.Repr), the text evaluated again (syntax.EvaluateExpr) and the canonical dumps and printed forms compared; distinct by printed form, non-trivial = non-empty value that round-trips; numbers restricted to those printing in < 15 characters",
+                    "rule": "values from the shared pool (every representation), every control character / quote / backslash / non-BMP rune alone, in context and inside attribute names, offset and sparse sequences, multi-valued dicts, @neg wrappers, byte arrays of printable / non-printable / quote bytes with offsets, dicts keyed by negative numbers, strings needing escapes, sets, arrays, tuples and byte arrays, nested holes, sets of sets, empty values of every kind inside containers, 38 attribute names that look like syntax (`a, b`, `|`, `(`, `:`, keywords, ...) in tuples and as relation headings, numbers around the switch to exponent notation, at the extremes of the double range and subnormals, plus random nested values; each is printed (fu.Repr), the text evaluated again (syntax.EvaluateExpr) and the canonical dumps and printed forms compared; distinct by printed form, non-trivial = non-empty value that round-trips; numbers restricted to those printing in < 15 characters",
                     "samples": [(o1.get(cases[i]["id"]) or {}).get("repr") for i in range(0, len(cases), step)][:8],
                     "outcome_histogram": hist, "exhaustive": False})
     run.assumptions = ["strconv float formatting and the wbnf grammar engine are exercised, not modelled",
